@@ -1,14 +1,18 @@
 """C07 - the launched channel set survives the path intact; channel order is irrelevant.
 
-B1  TLC explores MC_ChannelSet: every launch list (every order) of <= MaxLaunch of 16 candidate channels sitting on
+B1  TLC explores MC_ChannelSet: every launch list (every order) of <= MaxLaunch of 17 candidate channels sitting on
     band edges, one MHz beyond them, in the C/L gap, touching / overlapping by one MHz, baud = slot / one MHz wider,
-    on six paths (single-band, multi-band, mixed, no amplifier, wide single band before / after a multi-band amplifier), with Survives, FilterKeepsExactlyCommon,
+    on seven paths (single-band, multi-band, mixed, no amplifier, wide single band before / after a multi-band amplifier,
+    three-band amplifiers C+L+S), with Survives, FilterKeepsExactlyCommon,
     InFrequencyOrder, OwnAttributes, OrderIrrelevant, RejectOverlap, RejectBaudWiderThanSlot, AcceptValid.
 B2  every walk TLC emits is replayed on real objects: create_arbitrary_spectral_information and
     carriers_to_spectral_information and the loader of user spectrum documents, one partition per carrier
     (rejected exactly when the model rejects - SpectrumError, or the loader's own ValueError for overlapping
     partitions - else the model's sorted list with every attribute attached), filter_si on a path of real amplifiers of the shipped multi-band library, then every
-    real element (Edfa, Fiber, Multiband_amplifier) called in turn, and explicit demux per band + mux.
+    real element (Edfa, Fiber, Multiband_amplifier) called in turn, and explicit demux per band + mux.  The model has no
+    gain in it: the channel list does not depend on the operating point, so every walk is replayed at one of the
+    OPERATING_POINTS (as designed / one stage of every amplifier transparent, 0 dB).  Lists long enough to populate every
+    band of the path's widest amplifier at once go through the elements too (one order per set).
 B3  real propagate() runs on the shipped networks are judged by Trace_Propagation: the request-level clauses
     (RejectOverlap, RejectBaudWiderThanSlot, AcceptValid, Survives = a valid request with a channel in the common
     band is propagated to the end), LaunchIsSortedRequest, FilterKeepsExactlyCommon, Survives after every element,
@@ -23,6 +27,7 @@ import numpy as np
 from harness import tlc
 from harness import propagation_util as pu
 from harness.core import Machinery
+from harness.gnpy_util import EX
 from harness.ledger_util import run_b3
 
 BOUNDS = {   # tier -> (MaxLaunch for B1 and launch-level replay, longest list replayed through real elements)
@@ -35,7 +40,11 @@ MODEL_BANDS = {   # must be the constants of MC_ChannelSet (checked against the 
     'std_low_gain_bis': [[-1850000, 3050000]],
     'default': [-1800000, 2000000],
     'wide_band': [[-7100000, 3100000]],
+    'multi3': [[-1875000, 3025000], [-6600000, -3000000], [3900000, 6900000]],
 }
+# the operating point of the amplifiers plays no part in the model (and none in the property): stage k of every
+# amplifier of the path (an Edfa is its own first stage) set to 0 dB, a transparent stage, or everything as designed
+OPERATING_POINTS = ('as-designed', 'stage-1-at-0dB', 'stage-2-at-0dB', 'stage-3-at-0dB')
 
 
 def cfg(maxlaunch, emit):
@@ -104,9 +113,45 @@ def build_from_document(inp):
     return carriers_to_spectral_information(_spectrum_from_json(parts), power=1e-3)
 
 
+def three_band_amplifiers(n=2):
+    """real Multiband_amplifier objects with three member amplifiers, configured C, L, S: the shipped multi-band library
+    plus an S-band amplifier (the shipped C-band one with its band moved to 197 - 200 THz) and the three-band type"""
+    import json
+    import tempfile
+    from pathlib import Path
+    from gnpy.tools.json_io import load_json, load_equipments_and_configs, network_from_json
+    eqpt = load_json(EX / 'eqpt_config_multiband.json')
+    members = ['std_medium_gain_C', 'std_medium_gain_L', 'std_medium_gain_S']
+    eqpt['Edfa'] += [dict(next(a for a in eqpt['Edfa'] if a['type_variety'] == members[0]), type_variety=members[2],
+                          f_min=197.0e12, f_max=200.0e12),
+                     dict(type_variety='std_medium_gain_CLS', type_def='multi_band', amplifiers=members,
+                          allowed_for_design=False)]
+    tlc.BUILD.mkdir(exist_ok=True)
+    with tempfile.TemporaryDirectory(dir=tlc.BUILD) as tmp:
+        (Path(tmp) / 'eqpt.json').write_text(json.dumps(eqpt))
+        eq = load_equipments_and_configs(Path(tmp) / 'eqpt.json', [], [])
+    oper = dict(gain_target=20.0, delta_p=0.0, out_voa=0.0, tilt_target=0.0)
+    net = network_from_json({'elements': [
+        {'uid': f'three-band amplifier {k + 1}', 'type': 'Multiband_amplifier', 'type_variety': 'std_medium_gain_CLS',
+         'amplifiers': [{'type_variety': v, 'operational': dict(oper)} for v in members]} for k in range(n)],
+        'connections': []}, eq)
+    return sorted(net.nodes(), key=lambda el: el.uid)
+
+
+def set_operating_point(path, op):
+    """op = index in OPERATING_POINTS; 0 leaves the elements as designed"""
+    from gnpy.core.elements import Edfa, Multiband_amplifier
+    if op == 0:
+        return
+    for el in path:
+        stages = list(el.amplifiers.values()) if isinstance(el, Multiband_amplifier) else [el] if isinstance(el, Edfa) else []
+        if len(stages) >= op:
+            stages[op - 1].effective_gain = 0.0
+
+
 class Bench:
     """real elements of the designed multi-band example (variant with a wide single-band line, see
-    propagation_util.NETWORKS) arranged as the six model paths"""
+    propagation_util.NETWORKS) and two three-band amplifiers arranged as the seven model paths"""
 
     def __init__(self):
         from gnpy.core.elements import Fiber, Edfa, Multiband_amplifier
@@ -125,12 +170,17 @@ class Bench:
         bands = pu.bands_of                 # from the equipment parameters of the (member) amplifiers
         si = self.eq['SI']['default']
         wide = by['east edfa in Site_L to Site_A']
+        three1, three2 = three_band_amplifiers()
+        assert isinstance(three1, Multiband_amplifier) and len(three1.amplifiers) == 3
         real = dict(multi=bands(multi), test_fixed_gain=bands(fixed), std_low_gain_bis=bands(low),
-                    default=[pu.mhz(si.f_min), pu.mhz(si.f_max)], wide_band=bands(wide))
-        if real != MODEL_BANDS or bands(multi2) != MODEL_BANDS['multi']:
+                    default=[pu.mhz(si.f_min), pu.mhz(si.f_max)], wide_band=bands(wide), multi3=bands(three1))
+        if real != MODEL_BANDS or bands(multi2) != MODEL_BANDS['multi'] or bands(three2) != MODEL_BANDS['multi3']:
             raise Machinery(f'band constants of MC_ChannelSet differ from the shipped library: {real}')
         self.paths = {1: [fixed, fiber, low], 2: [multi, fiber, multi2], 3: [multi, fiber, low], 4: [fiber],
-                      5: [wide, fiber, multi], 6: [multi, fiber, wide]}
+                      5: [wide, fiber, multi], 6: [multi, fiber, wide], 7: [three1, fiber, three2]}
+        # the largest number of bands an amplifier of the path splits the spectrum into
+        self.max_bands = {pid: max([len(bands(el)) for el in p if hasattr(el.params, 'bands')] or [1])
+                          for pid, p in self.paths.items()}
 
 
 def crossing_failure(el, e):
@@ -174,6 +224,9 @@ def replay_walk(bench, js, chk, through_elements):
         return ok
     si = sis['create_arbitrary_spectral_information']
     path = [copy.deepcopy(el) for el in bench.paths[pid]]
+    op = (sum(c['label'] for c in inp) + pid) % len(OPERATING_POINTS)
+    set_operating_point(path, op)
+    at = '' if op == 0 else f'|{OPERATING_POINTS[op]}'
     try:
         si = rq.filter_si(path, bench.eq, si)
         got = ('filtered', project(si))
@@ -183,7 +236,8 @@ def replay_walk(bench, js, chk, through_elements):
         got = (f'{type(e).__name__}: {e}', [])
     want = ('NoChannel', []) if status == 'NoChannel' else ('filtered', js['kept'])
     if got != want:
-        chk.violation(f'B2|filter_si|path={pid}|{got[0].split(":")[0]}-instead-of-{want[0]}',
+        what = 'channel-list-wrong' if got[0] == want[0] else f'{got[0].split(":")[0]}-instead-of-{want[0]}'
+        chk.violation(f'B2|filter_si|path={pid}|{what}',
                       dict(input=inp, path=pid, model=want, code=got))
         return False
     if status == 'NoChannel':
@@ -203,8 +257,9 @@ def replay_walk(bench, js, chk, through_elements):
         except Exception as e:                                        # noqa
             one = any(sum(1 for c in js['kept'] if c['f'] - c['w'] // 2 >= lo and c['f'] + c['w'] // 2 <= hi) == 1
                       for lo, hi in (pu.bands_of(el) if hasattr(el.params, 'bands') else []))
-            chk.violation(crossing_failure(el, e) + ('|one-carrier-in-an-amplifier-band' if one else '|other'),
+            chk.violation(crossing_failure(el, e) + ('|one-carrier-in-an-amplifier-band' if one else '|other') + at,
                           dict(input=inp, path=pid, element=el.uid, position=pos + 1, kept=js['kept'],
+                               operating_point=OPERATING_POINTS[op],
                                exception=f'{type(e).__name__}: {e}',
                                note='the model lets every kept channel through every element of the path'))
             ok = False
@@ -212,8 +267,9 @@ def replay_walk(bench, js, chk, through_elements):
         si = out
         got = project(si)
         if got != js['final']:
-            chk.violation(f'B2|{type(el).__name__}|path={pid}|channel-list-changed',
-                          dict(input=inp, path=pid, element=el.uid, position=pos + 1, model=js['final'], code=got))
+            chk.violation(f'B2|{type(el).__name__}|path={pid}|channel-list-changed{at}',
+                          dict(input=inp, path=pid, element=el.uid, position=pos + 1, model=js['final'], code=got,
+                               operating_point=OPERATING_POINTS[op]))
             return False
     return ok
 
@@ -222,8 +278,8 @@ def run(chk):
     maxlaunch, through = BOUNDS[chk.tier]
     # B1 and the emission for B2 in one exhaustive run: all clauses as invariants, every finished walk printed
     base = '\n'.join(ln for ln in cfg(3, emit=False).splitlines() if not ln.startswith('INVARIANT'))
-    witnesses = ('WitnessMultiSplit', 'WitnessDropped')
-    with ThreadPoolExecutor(max_workers=2) as pool:                   # the short witness runs overlap the main run
+    witnesses = ('WitnessMultiSplit', 'WitnessDropped', 'WitnessThreeBands')
+    with ThreadPoolExecutor(max_workers=3) as pool:                   # the short witness runs overlap the main run
         ws = {w: pool.submit(tlc.run, 'MC_ChannelSet', cfg_text=base + f'\nINVARIANT {w}\n', timeout=600, workers=1,
                              tag='c07-witness') for w in witnesses}
         r2 = tlc.run('MC_ChannelSet', cfg_text=cfg(maxlaunch, emit=True), timeout=3000, tag='c07-mc')
@@ -238,9 +294,14 @@ def run(chk):
     seen_inputs = set()
     walks = launches = 0
     statuses = {}
-    for js in r2.emitted:
+    ops = {}
+    # (TLC's workers print the walks in no particular order: replayed in a fixed one)
+    for js in sorted(r2.emitted, key=lambda js: ([c['label'] for c in js['input']], js['pid'])):
         key_in = tuple(c['label'] for c in js['input'])
-        deep = len(js['input']) <= through
+        # through the real elements: every list (every order) up to `through` channels, and - one order per set, the order
+        # being gone once the spectrum is launched - lists long enough to put a channel in every band of the path's
+        # widest amplifier at once
+        deep = len(js['input']) <= through or (len(js['input']) <= bench.max_bands[js['pid']] and list(key_in) == sorted(key_in))
         if not deep:
             if key_in in seen_inputs:
                 continue                       # longer lists: construction only, once per list
@@ -249,6 +310,9 @@ def run(chk):
         statuses[js['status']] = statuses.get(js['status'], 0) + 1
         walks += 1 if deep else 0
         launches += 1
+        if deep and js['status'] == 'filtered':
+            op = OPERATING_POINTS[(sum(key_in) + js['pid']) % len(OPERATING_POINTS)]
+            ops[op] = ops.get(op, 0) + 1
         chk.case((key_in, js['pid'] if deep else 0), nontrivial=js['status'] != 'SpectrumError' or len(js['input']) > 1)
         if good:
             chk.traces += 1
@@ -258,6 +322,9 @@ def run(chk):
     chk.cov['b2_walks_through_real_elements'] = walks
     chk.cov['b2_constructions'] = launches
     chk.cov['b2_model_outcomes'] = statuses
+    chk.cov['b2_walks_per_operating_point'] = ops
+    if len(ops) < len(OPERATING_POINTS):
+        raise Machinery(f'operating points not all exercised: {ops}')
     traces = run_b3(chk, pu.C07_CLAUSES, 'C07')
     chk.cov['b3_rejected_requests'] = sum(1 for t in traces if t['outcome'] == 1)
     chk.cov['b3_permuted_pairs'] = sum(1 for t in traces if t['ref']['f'])
